@@ -193,6 +193,12 @@ class Grouping:
                      if d["y"][0] in function_names or ("f" in d and d["f"][0] in function_names)]
         return any(reach[b, j] for (_a, b) in sysm.edges for j in producers)
 
+    def data_flow_order(self):
+        """Group indices such that every group comes after the groups it depends on (members of one strongly coupled
+        component are adjacent): in the condensation, a group has strictly more ancestors than its predecessors."""
+        n = len(self.groups)
+        return sorted(range(n), key=lambda g: (int(self.reach[:, g].sum()), g))
+
     def influences(self, var_names, function_names):
         """Subset of ``var_names`` (independent inputs) on which at least one of the outputs depends structurally."""
         sysm = self.system
